@@ -285,6 +285,15 @@ func (p *tcpProc) OnSvcConfigUpdate(c *service.Config) error {
 			if err == nil {
 				p.hm.Start()
 			}
+		} else if newHC == nil {
+			// The health check is disabled. The hosts which were marked as
+			// unhealthy by the monitor must be usable again, nothing else
+			// would ever mark them as healthy.
+			p.hm.Stop()
+			p.hm = nil
+			for _, h := range p.hostSet.All() {
+				p.hostSet.MarkHostHealthy(h)
+			}
 		} else {
 			err = p.hm.ResetHealthCheck(newHC)
 		}
